@@ -11,7 +11,7 @@ mkdir -p "$W/verif"; cp -r "$HERE/sim" "$HERE/sim-threads" "$HERE/known_findings
 rm -rf "$W/verif/sim/target" "$W/verif/sim-threads/target"
 grep -rl '/repo/' "$W/verif/sim" "$W/verif/sim-threads" --include=Cargo.toml | xargs sed -i "s|/repo/|$W/repo/|g"
 export VERIF_DIR="$W/verif" CARGO_NET_OFFLINE=true VERIF_SEED="$SEED"
-(cd "$W/verif/sim" && cargo build --release --offline >/dev/null 2>&1) || { echo "build failed"; exit 2; }
+(cd "$W/verif/sim" && cargo build --release --offline >/dev/null 2>&1 && cargo build --profile shipped --offline >/dev/null 2>&1) || { echo "build failed"; exit 2; }
 (cd "$W/verif/sim-threads" && cargo build --release --offline >/dev/null 2>&1) || { echo "build failed"; exit 2; }
 for p in C01 C02 C03 C04 C05 C06 C07 C10 C11 C12 C13 C15 C17 C20; do
   if [ "$p" = C20 ]; then o=$("$W/verif/sim-threads/target/release/threads-sim" check "$TIER" 2>&1); rc=$?
